@@ -90,6 +90,22 @@ def variants(spec, which):
                                     m2_["data"] = {k: [v[0] - s2["data"][0] * 0 - (neg["data"][0] + 2.0)] + v[1:] for k, v in m2_["data"].items()}
                 out.append(("negative_bin", w))
                 break
+        if len(base["channels"]) >= 2:
+            # one channel name contained in another (SR / SR_tight), the shorter one's observation listed first
+            w = copy.deepcopy(out[0][1])
+            a, b = w["channels"][0]["name"], w["channels"][1]["name"]
+            ren = {a: "SR_tight", b: "SR"}
+            for c in w["channels"]:
+                c["name"] = ren.get(c["name"], c["name"])
+                for s2 in c["samples"]:
+                    for m2_ in s2["modifiers"]:
+                        for old_, new_ in ren.items():
+                            if m2_["name"].endswith("_" + old_):
+                                m2_["name"] = m2_["name"][: -len(old_)] + new_
+            for o in w["observations"]:
+                o["name"] = ren.get(o["name"], o["name"])
+            w["observations"].sort(key=lambda o: len(o["name"]))
+            out.append(("nested_channel_names", w))
         w = copy.deepcopy(out[0][1])
         w["measurements"][0]["config"]["parameters"].append({"name": "mu", "inits": [1.5], "bounds": [[0.0, 7.0]]})
         scal = [n for n, t in names.items() if t in ("normsys", "histosys", "normfactor") and n != "mu"]
